@@ -620,7 +620,6 @@ pub fn run(tier: Tier) -> i32 {
 }
 
 pub fn replay(case: &J) -> Verdict {
-    let v = from_json(&case["value"]);
     if let Some(i) = case["exotic_unit"].as_u64() {
         let ev = exotic_unit_values();
         return match ev.get(i as usize).map(encode_all) {
@@ -628,6 +627,7 @@ pub fn replay(case: &J) -> Verdict {
             _ => Ok(()),
         };
     }
+    let v = from_json(&case["value"]);
     if case["writer"] == true {
         return writer_case(&v).map_err(|(s, d)| (format!("{s}:{}", shape_sig(&v)), d));
     }
